@@ -231,6 +231,8 @@ pub fn profile(name: &str, tier: Tier) -> Option<Profile> {
             p.queries = Range(0, 1);
             p.later_ops.overwrite = 30;
             p.probes = 35;
+            // the capacity boundary (up to 2 x dimension + 1 items) belongs to C15: with 130 dimensions it only makes the cases big
+            p.p_cap_boundary = 0.0;
             // the id set a reader reports after a build that changed the items but not their number
             p.p_swap_round = 0.3;
             p.after_round =
@@ -368,6 +370,11 @@ pub fn profile(name: &str, tier: Tier) -> Option<Profile> {
             small(&mut p, tier);
             p.queries = Range(4, 8);
             p.p_exhaustive = 1.0;
+            p.p_cap_boundary = 0.0;
+            // distances after a change of metric: the headers (norms) are recomputed from the stored vectors
+            p.p_prepare = 0.25;
+            p.p_quiet_after_prepare = 0.5;
+            p.prepare_targets = Metric::ALL.iter().filter(|m| !Metric::BQ.contains(m)).map(|m| (1, *m)).collect();
         }
         // binary quantisation
         "c12" => {
@@ -390,6 +397,14 @@ pub fn profile(name: &str, tier: Tier) -> Option<Profile> {
             p.full_readback = true;
             p.queries = Range(3, 6);
             p.p_exhaustive = 0.8;
+            p.p_cap_boundary = 0.0;
+            // items converted by a change of metric next to items written directly (two conversion paths): some
+            // indexes start under a full-precision metric and are switched to a quantised one
+            p.metrics.push((1, Metric::Euclidean));
+            p.metrics.push((1, Metric::Cosine));
+            p.p_prepare = 0.3;
+            p.p_quiet_after_prepare = 0.3;
+            p.prepare_targets = Metric::BQ.iter().map(|m| (1, *m)).collect();
         }
         // fresh tree-node ids never collide: builds in pools of 2..16 threads (predicate mode)
         "c13" => {
@@ -477,7 +492,9 @@ pub fn profile(name: &str, tier: Tier) -> Option<Profile> {
             small(&mut p, tier);
             p.metrics = vec![(1, Metric::Cosine)];
             p.n_indexes = Mix(vec![(1, Const(1)), (2, Const(2)), (1, Const(3))]);
-            p.first_items = Range(0, 40);
+            // one index in nine starts (and is built) empty: the upgrade then meets metadata without roots
+            p.first_items = Mix(vec![(1, Const(0)), (8, Range(1, 40))]);
+            p.p_build_all = 0.5;
             p.rounds = Range(1, 3);
             p.split = vec![(1, None), (4, Some(Range(1, 3))), (1, Some(Range(4, 10)))];
             p.ntrees = vec![(1, None), (3, Some(Range(1, 4)))];
